@@ -8,14 +8,19 @@
 //   union <dst> <lgk> <ordered> <src>...  | inter <dst> <ordered> <src>... | anotb <dst> <ordered> <a> <b>
 //   fromtheta <src theta> <dst> <fam> <ordered> <summary>    compact tuple sketch from a theta sketch
 //   ser <id> <kind> [other]   -> IMG <kind> <seed> <hex> | <content> | ok   (or `| FAIL <check>,...`)
-//   trunc <id> <kind>         -> TRUNC <kind> <seed> <hex> | <path>:<n cases>:<events> ...   (every prefix, isolated)
-//   corrupt <id> <kind>       -> CORRUPT <kind> <seed> <hex> | npre=<k> | <path>:<verdict string>:<events> ...
+//   trunc <id> <kind>         -> TRUNC <kind> <seed> <hex> | <content> | <path>:<n cases>:<events> ; ...   (every prefix, isolated)
+//   corrupt <id> <kind>       -> CORRUPT <kind> <seed> <hex> | <content> | npre=<k> | <path>:<verdict string>:<events> ; ...
 //   load <id> <fam> <seed> <hex> [num_values]        compact object deserialized from an image (chosen hash values)
 //   deser <fam> <kind> <seed> <hex> [num_values]  -> DES <content> | ok   (bytes, stream (and wrap) must agree)
 //   BP pack <n> v0..v7 | BP unpack <n> <hex> | BPT <eb> v1..vk           real bit_packing.hpp routines
 #include <cstdlib>
 #include <new>
 #include <atomic>
+
+// sanitizer reports of the isolated cases are only classified (first line), never read by a person: symbolizing each of the
+// (possibly thousands of) expected aborts costs 0.2 s apiece.  ASAN_OPTIONS=symbolize=1 in the environment overrides this.
+extern "C" const char* __asan_default_options() { return "symbolize=0"; }
+extern "C" const char* __ubsan_default_options() { return "symbolize=0"; }
 
 // ---- tracking allocator with an allocation cap (global operator new/delete; malloc underneath keeps ASan red zones)
 static long g_live = 0;
@@ -83,7 +88,7 @@ static std::vector<std::string> run_isolated(size_t n, const std::function<std::
   uint8_t* codes = (uint8_t*)mmap(nullptr, n, PROT_READ | PROT_WRITE, MAP_SHARED | MAP_ANONYMOUS, -1, 0);
   size_t start = 0;
   int restarts = 0;
-  while (start < n && restarts < 200) {
+  while (start < n && restarts < (int)n + 16) {
     sh->cur = start; sh->ndone = start;
     char errname[] = "/tmp/vh_wire_err_XXXXXX";
     int efd = mkstemp(errname);
@@ -527,7 +532,7 @@ template<typename Tr> struct Fam : Obj {
     for (int p = 0; p < npaths; ++p) { attempt(p, img.data(), n, sd, nvv, true); attempt(p, img.data(), 0, sd, nvv, true); }
     auto oc = run_isolated(n * npaths, [&](size_t i) { return attempt((int)(i / n), img.data(), i % n, sd, nvv, true); });
     std::ostringstream os;
-    os << "TRUNC " << kind << " " << seed << " " << vh::hex_of_bytes(img.data(), img.size()) << " |";
+    os << "TRUNC " << kind << " " << seed << " " << vh::hex_of_bytes(img.data(), img.size()) << " | " << Tr::content(*cmp) << " |";
     static const char* pn[] = {"bytes", "stream", "wrap"};
     for (int p = 0; p < npaths; ++p)
       os << " " << pn[p] << ":" << n << ":" << events(oc, p * n, (p + 1) * n, [&](size_t i) { return std::to_string(i % n); }).substr(1) << " ;";
@@ -558,7 +563,7 @@ template<typename Tr> struct Fam : Obj {
       return attempt((int)(i / nc), b.data(), b.size(), sd, nvv, true);
     });
     std::ostringstream os;
-    os << "CORRUPT " << kind << " " << seed << " " << vh::hex_of_bytes(img.data(), img.size()) << " | npre=" << npre << " |";
+    os << "CORRUPT " << kind << " " << seed << " " << vh::hex_of_bytes(img.data(), img.size()) << " | " << Tr::content(*cmp) << " | npre=" << npre << " |";
     static const char* pn[] = {"bytes", "stream", "wrap"};
     for (int p = 0; p < npaths; ++p) {
       os << " " << pn[p] << ":";
